@@ -7,7 +7,7 @@ from .c04 import judge, spec_tensor, rand_hermitian_iop
 
 IMPORTS = ('From OFV Require Import Base.Cplx Base.Lin Sem.PauliSem Sem.FermiSem Sem.BoseSem Model.SymbolicOp Model.QubitOp Model.LadderOp '
            'Model.NormalOrder Model.Conjugate Model.Program Check.DictEquiv Check.OpEquiv Thm.C07.Adjoint.\n')
-NEEDS = ['Thm/C03/CAR', 'Thm/C03/NormalOrderB', 'Check/OpEquiv']
+NEEDS = ['Thm/C03/CAR', 'Thm/C03/NormalOrderB', 'Thm/C03/NormalOrderF', 'Check/OpEquiv']
 
 def coq_lop(terms, quad=False):
     if quad: return clist([cpair(coq_quadterm(t), cC(c)) for t, c in terms.items()])
@@ -32,8 +32,8 @@ def run(ctx):
     for L in range(0, N(4, 5) + 1):
         for w in itertools.product(facs, repeat=L):
             out = normal_ordered_ladder_term(w, 1.0, -1)
-            add('fermi_words', '(dict_eqb lfactor lfeqb (no_fermi_term %s C1) %s && fermi_equiv [(%s, C1)] %s && is_normal_ordered_fermi %s)' %
-                (coq_fterm(w), coq_fop(out), coq_fterm(w), coq_fop(out), coq_fop(out)),
+            add('fermi_words', '(dict_eqb lfactor lfeqb (no_fermi_term %s C1) %s && dict_eqb lfactor lfeqb (no_fermi_term0 %s C1) %s && fermi_equiv [(%s, C1)] %s && is_normal_ordered_fermi %s)' %
+                (coq_fterm(w), coq_fop(out), coq_fterm(w), coq_fop(out), coq_fterm(w), coq_fop(out), coq_fop(out)),
                 {'call': 'normal_ordered_ladder_term(parity=-1)', 'term': repr(w)}, key=w if L >= 2 else None)
     ctx.parts['fermi_words']['exhaustive'] = 'all words of length <= %d over modes {0,1}' % N(4, 5)
     for i in range(N(200, 2500)):
@@ -46,8 +46,8 @@ def run(ctx):
         fop = mk_fermion(of, terms)
         out = of.normal_ordered(fop)
         if not exact_terms_ok(out.terms) or not exact_terms_ok(fop.terms): ctx.stat('fermi_ops', 'discarded_inexact'); continue
-        add('fermi_ops', '(dict_eqb lfactor lfeqb (normal_ordered_fermi %s) %s && fermi_equiv %s %s && is_normal_ordered_fermi %s)' %
-            (coq_fop(fop), coq_fop(out), coq_fop(fop), coq_fop(out), coq_fop(out)),
+        add('fermi_ops', '(dict_eqb lfactor lfeqb (normal_ordered_fermi %s) %s && dict_eqb lfactor lfeqb (normal_ordered_fermi0 %s) %s && fermi_equiv %s %s && is_normal_ordered_fermi %s)' %
+            (coq_fop(fop), coq_fop(out), coq_fop(fop), coq_fop(out), coq_fop(fop), coq_fop(out), coq_fop(out)),
             {'call': 'normal_ordered(FermionOperator)', 'terms': {repr(t): repr(c) for t, c in fop.terms.items()}}, key=repr(sorted(terms)))
         if i < 2: ctx.sample({'part': 'fermi_ops', 'input': str(fop), 'output': str(out)})
         # canonicity: a second spelling of the same operator (adjacent factors on different modes
